@@ -4,6 +4,8 @@ Oracle: round trip.  (a) every saveable class of a hand-enumerated registry is
 built from generated content, saved and loaded under generated unit / basis
 contexts (path or file object); observables of the loaded object, read in a
 neutral context after everything is closed, must equal those of the original.
+(a') histories of savedir calls of several objects into one or two directories;
+loaddir must return every saved object under its tag (dictionary model).
 (b) data export: format x dtype x shape x axis through save_data/load_data.
 """
 import io
@@ -20,19 +22,22 @@ from ..core import guarded, HarnessError
 
 ID = "C18"
 TECHNIQUE = ("Hypothesis-generated (class, content, context at save, context at load, target) round trips over a "
-             "registry of saveable classes, and the complete (format x dtype x shape x axis) export grid")
+             "registry of saveable classes, savedir/loaddir histories against a dictionary model, and the complete "
+             "(format x dtype x shape x axis) export grid")
 LEVEL = ("25 saveable classes (axes, discrete functions, operators, Hamiltonian with RWA, density matrices, state "
          "vectors, dipole operator, molecules with modes and environments, built aggregates, bath functions, "
          "system-bath interaction, absorption spectra and containers, two-dimensional responses and containers, "
          "density-matrix evolutions, relaxation tensors in both forms, evolution superoperators) are built from "
          "generated content, saved to a path or a file object and loaded, with none / units / basis / both contexts "
          "active at save and at load; the observables of the loaded object read in a neutral context equal the "
-         "original ones. All 5 export formats x real/complex x (N,) / (N,M) x with/without axis are enumerated for "
+         "original ones. Histories of 2-8 savedir calls of 2-3 objects into one or two directories (automatic and explicit "
+         "tags) are compared with a tag -> object dictionary after every step or at the end. All 5 export formats x real/complex x (N,) / (N,M) x with/without axis are enumerated for "
          "DFunction (DataSaveable) and Operator (MatrixData).")
 NOTE = ("The class registry and the observable extractors are hand-enumerated; a class not in the registry is not seen. "
         "Text formats are compared to 1e-15 relative, binary formats exactly. Context operators are real symmetric. Two-dimensional export data have >= 2 "
         "columns (an (N,1) array cannot be told from (N,) in the text/axis protocol).")
-RULE = ("kind object: class id, integer content, ctx_save, ctx_load in {none, units, basis, both}, target path|file; "
+RULE = ("kind dir: objects + list of (object, directory, tag) operations, non-trivial if a directory receives a second "
+        "object and the history has >= 3 operations; kind object: class id, integer content, ctx_save, ctx_load in {none, units, basis, both}, target path|file; "
         "kind export: grid over format/dtype/shape/axis plus generated values. Non-trivial: a non-trivial context at "
         "save or load (object), complex data or an axis (export).")
 ASSUMPTIONS = ["temporary files live in tempfile.mkdtemp() and are removed after every case"]
@@ -66,8 +71,24 @@ def _export(draw):
             "ints": draw(st.lists(st.integers(-9, 9), min_size=96, max_size=96))}
 
 
+DIRCLASSES = ["TimeAxis", "DFunction", "Operator", "Hamiltonian", "ReducedDensityMatrix", "AbsSpectrum"]
+
+
+@st.composite
+def _dir(draw):
+    """history of savedir calls of a few objects into one or two directories, followed by loaddir of each"""
+    nobj = draw(st.integers(2, 3))
+    objs = [{"cls": draw(st.sampled_from(DIRCLASSES)), "ints": draw(st.lists(st.integers(-9, 9), min_size=40, max_size=40))}
+            for _ in range(nobj)]
+    ops = draw(st.lists(st.fixed_dictionaries({"o": st.integers(0, nobj - 1), "d": st.sampled_from([0, 0, 1]),
+                                               "tag": st.sampled_from([None, None, None, 1, 3])}),
+                        min_size=2, max_size=8))
+    return {"kind": "dir", "objs": objs, "ops": ops, "reader": draw(st.integers(0, nobj - 1)),
+            "check_every_step": draw(st.booleans())}
+
+
 def strategy(tier):
-    return st.one_of(_obj(), _obj(), _export())
+    return st.one_of(_obj(), _obj(), _export(), _dir())
 
 
 def grid(tier):
@@ -86,6 +107,8 @@ def check_case(case, ctx):
     try:
         if case["kind"] == "object":
             _check_object(case, ctx, tmp)
+        elif case["kind"] == "dir":
+            _check_dir(case, ctx, tmp)
         else:
             _check_export(case, ctx, tmp)
     finally:
@@ -388,6 +411,78 @@ def _check_object(case, ctx, tmp):
         if ok:
             ctx.close("saving-leaves-original", again[name], w, rtol=1e-10, scale=sc, where=where, observable=name,
                       cls=cls)
+
+
+# ---------------------------------------------------------------------------
+# (a') directories of saved objects: savedir / loaddir histories against a dictionary model
+# ---------------------------------------------------------------------------
+
+def _check_dir(case, ctx, tmp):
+    import quantarhei as qr
+    pool = []
+    for o in case["objs"]:
+        try:
+            obj, ex = build(qr, o["cls"], o["ints"])
+        except HarnessError:
+            raise
+        except Exception as e:
+            raise HarnessError("construction of %s failed: %r" % (o["cls"], e))
+        pool.append((obj, ex, ex(obj), o["cls"]))
+    dirs = [os.path.join(tmp, "first"), os.path.join(tmp, "second")]
+    model = [dict(), dict()]            # per directory: tag -> index of the object saved under it (insertion ordered)
+    ctx.label("dir-history", "ops=%d" % len(case["ops"]))
+
+    def compare(step):
+        for di in range(2):
+            if not model[di]:
+                continue
+            reader = pool[case["reader"] % len(pool)][0]
+            ok, got = guarded(ctx, "loaddir", lambda: reader.loaddir(dirs[di]), "dir-history", step=step)
+            if not ok:
+                return False
+            if sorted(got.keys()) != sorted(model[di].keys()):
+                ctx.fail("loaddir/tags", "dir-history", got=sorted(got.keys()), want=sorted(model[di].keys()), step=step)
+                return False
+            for tag, oi in model[di].items():
+                obj, ex, want, cls = pool[oi]
+                ok, have = guarded(ctx, "read-loaded-object", lambda: ex(got[tag]), "dir-history", cls=cls, step=step)
+                if not ok:
+                    return False
+                for name, w in want.items():
+                    sc = max(1e-300, float(numpy.max(numpy.abs(w)))) if numpy.size(w) else 1.0
+                    if name not in have or numpy.shape(have[name]) != numpy.shape(w):
+                        ctx.fail("loaddir/roundtrip", "dir-history", observable=name, cls=cls, tag=tag, step=step,
+                                 reason="missing or wrong shape (another object under this tag)")
+                        return False
+                    if not ctx.close("loaddir/roundtrip", have[name], w, rtol=1e-10, scale=sc, where="dir-history",
+                                     observable=name, cls=cls, tag=tag, step=step):
+                        return False
+        return True
+
+    alternated = False
+    two_dirs = set()
+    for step, op in enumerate(case["ops"]):
+        oi, di = op["o"] % len(pool), op["d"]
+        obj = pool[oi][0]
+        # tag: None = "next free" as documented by the code (last tag + 1); explicit tags only if they are new
+        tag = op["tag"]
+        if tag is not None and (tag in model[di] or (model[di] and tag <= max(model[di]))):
+            tag = None
+        if tag is None:
+            newtag = (list(model[di].keys())[-1] + 1) if model[di] else 1
+        else:
+            newtag = tag
+        ok, _ = guarded(ctx, "savedir", lambda: obj.savedir(dirs[di], tag=tag), "dir-history", step=step)
+        if not ok:
+            return
+        if model[di] and oi not in model[di].values():
+            alternated = True
+        model[di][newtag] = oi
+        two_dirs.add((oi, di))
+        if case["check_every_step"] and not compare(step):
+            return
+    compare(len(case["ops"]))
+    ctx.mark_nontrivial(alternated and len(case["ops"]) >= 3)
 
 
 # ---------------------------------------------------------------------------
